@@ -107,13 +107,23 @@ def errors_outcome(parser):
     return out
 
 
-def parse_outcome(parser, text, roots=(), ntrees=10, with_errors=False, call_actions=False):
-    """Parse text; returns canonical outcome."""
+def result_outcome(res, ntrees=10):
+    """Canonical view of a value returned by parse (forest / tree / value)."""
+    if type(res).__name__ == "Forest":
+        return forest_outcome(res, ntrees)
+    return {"result": value_outcome(res)}
+
+
+def parse_outcome(parser, text, roots=(), ntrees=10, with_errors=False, call_actions=False,
+                  keep=None):
+    """Parse text; returns canonical outcome.  keep: list receiving the raw result."""
     try:
         res = parser.parse(text)
     except Exception as e:
         out = exc_outcome(e, roots)
         return out
+    if keep is not None:
+        keep.append(res)
     if type(res).__name__ == "Forest":
         out = forest_outcome(res, ntrees)
         if call_actions:
